@@ -92,11 +92,20 @@ def stage_names(stages) -> List[str]:
     return [s[0] if s[0] != "round" else f"round:{s[1]}" for s in stages]
 
 
-def is_storage_bound(repo: Repo, mi, e: ast.AST, which: str, dtype_text: str) -> bool:
+def is_storage_bound(repo: Repo, mi, e: ast.AST, which: str, dtype_text: str, fp=None) -> bool:
+    """`e` is the min/max of the storage range of `dtype_text`; on a path whose family is known (fp True: float8, False: int8)
+    torch.finfo(X) / torch.iinfo(X) alone is that range."""
     if e is None:
         return False
     e2 = inline(repo, mi, e)
-    return isinstance(e2, ast.Attribute) and e2.attr == which and storage_max_of(e2) == dtype_text
+    if not (isinstance(e2, ast.Attribute) and e2.attr == which):
+        return False
+    if storage_max_of(e2) == dtype_text:
+        return True
+    v = e2.value
+    if fp is not None and isinstance(v, ast.Call) and len(v.args) == 1 and not v.keywords and U(v.args[0]) == dtype_text:
+        return U(v.func) == ("torch.finfo" if fp else "torch.iinfo")
+    return False
 
 
 def is_zero_test(cond: ast.AST, scale_txt: str) -> Optional[bool]:
